@@ -678,6 +678,11 @@ class Exec:
         # special forms of the spec language
         if isinstance(e.func, ast.Name) and e.func.id in self.lib.SPECIAL_FORMS and e.func.id not in st.env:
             return self.lib.SPECIAL_FORMS[e.func.id](self, st, e)
+        if self.spec_depth and isinstance(e.func, ast.Name) and e.func.id in dsl.OPAQUE_FUNS:
+            arg = st.get(self.ev1(e.args[0], st))
+            if not isinstance(arg, Vec):
+                raise SpecError("%s(...) needs a vector" % e.func.id)
+            return [(st, st.alloc(OpaqueVecApp(e.func.id, arg)))]
         out = []
         for s, f in self.ev(e.func, st):
             if s.ctl:
@@ -989,6 +994,11 @@ class Exec:
     def fresh_result(self, rt, env, st):
         if isinstance(rt, dsl.Opt):
             raise Unsupported("Opt result type in a callee contract")
+        if isinstance(rt, dsl.FunResT):
+            arg = st.get(env[rt.arg])
+            if not isinstance(arg, Vec):
+                raise Unsupported("opaque function result of a non-vector argument")
+            return st.alloc(OpaqueVecApp(rt.name, arg))
         r = self.fresh_value(rt, "res", st)
         like = getattr(rt, "like", None)
         if like is not None:
